@@ -553,7 +553,7 @@ pub unsafe extern "C" fn pipe2(fds: *mut c_int, flags: c_int) -> c_int {
 #[no_mangle]
 pub unsafe extern "C" fn fcntl(fd: c_int, cmd: c_int, arg: c_long) -> c_int {
     // only F_GETFD/F_SETFD are of interest for faults; everything passes through
-    let interesting = cmd == libc::F_GETFD || cmd == libc::F_SETFD;
+    let interesting = cmd == libc::F_GETFD || cmd == libc::F_SETFD || cmd == libc::F_DUPFD || cmd == libc::F_DUPFD_CLOEXEC;
     if interesting {
         yield_point(K_FCNTL);
         if let Some(e) = account(K_FCNTL) {
@@ -708,6 +708,16 @@ pub unsafe extern "C" fn kill(pid: pid_t, sig: c_int) -> c_int {
     let r = libc::syscall(libc::SYS_kill, pid, sig) as c_int;
     log(K_KILL, pid as i64, sig as i64, r as i64, if r < 0 { get_errno() } else { 0 });
     r
+}
+
+#[no_mangle]
+pub unsafe extern "C" fn killpg(pgrp: pid_t, sig: c_int) -> c_int {
+    if pgrp < 0 {
+        set_errno(libc::EINVAL);
+        return -1;
+    }
+    // glibc: killpg(pgrp, sig) == kill(-pgrp, sig); route it through our kill
+    kill(-pgrp, sig)
 }
 
 #[no_mangle]
